@@ -47,6 +47,10 @@ package topology
 // C04: "nodes lacking the topology's labels are never used for it": the returned valid-node map
 // contains only nodes of the given set that carry every level's label key, stored under their name;
 // and every such node of the set is in it. Index safety of levels[len(domainParts)-1].
+// [validNodesHaveAllLabels] / [labelledNodesAreValid] are proved at exit as `lemma` (not exported):
+// exported to subSetNodesFn the pair forms a forall-exists / forall instantiation cycle that made every
+// obligation of the caller 5-10x slower. What the caller needs is exported separately:
+// [validNodeKeysAreNamesOfNodeSet] (keys are Names of nodes of nodeSet) and `fresh 2` (the map is new).
 //@ func lowestCommonDomainID
 //@   props C04 C10
 //@   requires topologyConstraint != nil
@@ -73,23 +77,37 @@ package topology
 //@ end
 
 // C04: "Constraints of nested sub-groups hold simultaneously with those of their parents": the node
-// set handed in is the one the parent chose; every node of every returned node set carries the Name
-// of a node of that set (child node sets are a subset, by name, of the parent node set).
+// set handed in is the one the parent chose (allocateSubGroupSet -> SubsetNodesFn(..., nodes)); on
+// success every node of every returned node set carries the Name of a node of that set (child node
+// sets are a subset, by name, of the parent node set). The only thing that establishes this in the code
+// is the `validNodes[node.Name]` filter of the final loop (validNodes = third result of
+// lowestCommonDomainID, whose keys are Names of nodes of nodeSet); the candidate domains themselves
+// are searched over the WHOLE tree. Deliberately stated without mentioning the local `validNodes`.
+// C04: "a workload naming a non-existent topology is not placed": unknown topology => no node set.
+//
+// The unit calls a dozen functions without contracts (tree clean-up/scoring/sorting, fit errors):
+// `modifies *`; everything that matters happens after them. validNodes is a `fresh 2` map of the
+// callee that is only looked up, so it keeps its contents across those calls.
+// Invariants: the inner node sets are freshly allocated arrays (needed to frame them across the inner
+// append); the element property is quantified over the CELLS of the inner slices (`incells`) because
+// the index form `domainNodeSets[a][b]` made the preservation queries take 7-30 s.
 //@ func (*topologyPlugin).subSetNodesFn
 //@   props C04
 //@   requires t != nil && subGroup != nil && job != nil
 //@   requires forall i int :: 0 <= i && i < len(nodeSet) ==> nodeSet[i] != nil && nodeSet[i].Node != nil
 //@   modifies *
 //@   nopanic off
+//@   note nopanic off: panic-freedom needs well-formedness of the topology tree (non-nil TopologyResource, non-nil domains/nodes in the maps, non-nil topologyConstraint of a sub-group that names a topology) which nothing re-establishes after the contract-less (havoc) callees; C04 is about the returned node sets, not about panics.
 //@   loop 1
 //@     invariant 0 - 1 <= rangeindex && rangeindex < len(jobAllocatableDomains)
 //@     invariant forall a int :: 0 <= a && a < len(domainNodeSets) && len(domainNodeSets[a]) > 0 ==> fresh(domainNodeSets[a])
-//@     invariant forall a int :: 0 <= a && a < len(domainNodeSets) ==> (forall b int :: 0 <= b && b < len(domainNodeSets[a]) ==> exists i int :: 0 <= i && i < len(nodeSet) && domainNodeSets[a][b].Name == old(nodeSet[i].Name))
+//@     invariant forall a int, r **node_info.NodeInfo :: 0 <= a && a < len(domainNodeSets) && incells(r, domainNodeSets[a]) ==> exists i int :: 0 <= i && i < len(nodeSet) && (*r).Name == old(nodeSet[i].Name)
 //@     decreases len(jobAllocatableDomains) - rangeindex
 //@   loop 2
 //@     invariant forall a int :: 0 <= a && a < len(domainNodeSets) && len(domainNodeSets[a]) > 0 ==> fresh(domainNodeSets[a])
-//@     invariant forall a int :: 0 <= a && a < len(domainNodeSets) ==> (forall b int :: 0 <= b && b < len(domainNodeSets[a]) ==> exists i int :: 0 <= i && i < len(nodeSet) && domainNodeSets[a][b].Name == old(nodeSet[i].Name))
+//@     invariant forall a int, r **node_info.NodeInfo :: 0 <= a && a < len(domainNodeSets) && incells(r, domainNodeSets[a]) ==> exists i int :: 0 <= i && i < len(nodeSet) && (*r).Name == old(nodeSet[i].Name)
 //@     invariant len(domainNodeSet) > 0 ==> fresh(domainNodeSet)
 //@     invariant forall b int :: 0 <= b && b < len(domainNodeSet) ==> exists i int :: 0 <= i && i < len(nodeSet) && domainNodeSet[b].Name == old(nodeSet[i].Name)
+//@   ensures [unknownTopologyNoNodeSets] old(subGroup.topologyConstraint != nil && subGroup.topologyConstraint.Topology != "" && t.TopologyTrees[subGroup.topologyConstraint.Topology] == nil) ==> len(result0) == 0 && result1 == nil
 //@   ensures [childNodeSetsWithinParentNodeSet] result1 == nil ==> forall a int, b int :: 0 <= a && a < len(result0) && 0 <= b && b < len(result0[a]) ==> exists i int :: 0 <= i && i < len(nodeSet) && result0[a][b].Name == old(nodeSet[i].Name)
 //@ end
